@@ -575,6 +575,8 @@ func parentMain() int {
 	schedSigs := map[uint64]bool{}
 	infra := []string{}
 	var violations []ViolationReport
+	deadSeen := 0
+	infraNote := ""
 	for i, w := range ws {
 		b, err := os.ReadFile(w.out)
 		var r WorkerResult
@@ -584,7 +586,13 @@ func parentMain() int {
 		if err != nil {
 			// the worker died without a result: look at its journal
 			jp := w.out + ".journal"
-			rep, ok := deadWorker(p, i, codes[i], jp, w.log.String(), runDir)
+			deadSeen++
+			if deadSeen > 4 {
+				// enough replay files: the remaining dead workers are only counted
+				infraNote = fmt.Sprintf("%d more workers died the same way and were not replayed", deadSeen-4)
+				continue
+			}
+			rep, ok := deadWorker(p, i, codes[i], jp, w.log.String(), runDir, deadSeen == 1)
 			if ok {
 				violations = append(violations, rep)
 			} else {
@@ -637,6 +645,9 @@ func parentMain() int {
 			agg.Samples = append(agg.Samples, r.Samples...)
 		}
 		agg.FirstSeeds = append(agg.FirstSeeds, r.FirstSeeds...)
+	}
+	if infraNote != "" {
+		fmt.Println("simrun: note:", infraNote)
 	}
 	if hung {
 		infra = append(infra, "watchdog: workers were still running after the budget plus grace and were killed")
@@ -750,7 +761,7 @@ func parentMain() int {
 
 // deadWorker turns a worker that died (race report, fatal error, stack overflow) into a
 // violation whose replay file is the journalled scenario, if the journal reproduces the death.
-func deadWorker(p props.Property, idx, code int, journalFile, stderr, runDir string) (ViolationReport, bool) {
+func deadWorker(p props.Property, idx, code int, journalFile, stderr, runDir string, minimise bool) (ViolationReport, bool) {
 	b, err := os.ReadFile(journalFile)
 	if err != nil {
 		return ViolationReport{}, false
@@ -792,10 +803,13 @@ func deadWorker(p props.Property, idx, code int, journalFile, stderr, runDir str
 	if !freshReplayFails(file) {
 		return ViolationReport{}, false
 	}
+	if !minimise {
+		return ViolationReport{RunSeed: sc.RunSeed, Clause: clause, Detail: detail, Replay: file}, true
+	}
 	// minimise by replaying candidates in fresh processes (the failure kills the process, so it
 	// cannot be done in-process); bounded, because every attempt costs a process
 	tmp := file + ".candidate"
-	deadline := time.Now().Add(150 * time.Second)
+	deadline := time.Now().Add(100 * time.Second)
 	small, attempts := shrink.Minimise(&sc, func(c *props.Scenario) bool {
 		if time.Now().After(deadline) {
 			return false
